@@ -245,14 +245,23 @@ class TableProfile:
     def __add__(self, right_profile: "TableProfile") -> "TableProfile":
         new_profile = TableProfile()
 
+        # a side that lacks a column holds no value for it in any of its rows (every column of a
+        # profile counts all the rows; the profile of a frame without rows has no columns)
+        left_rows = self._columns[0].count if self._columns else 0
+        right_rows = right_profile._columns[0].count if right_profile._columns else 0
+
         for column_name in self._column_names:
             left_column = self.column(column_name)
             right_column = right_profile.column(column_name)
             if not right_column:
-                right_column = ColumnProfile(
-                    column_name, left_column.type, left_column.count, left_column.count
-                )
+                right_column = ColumnProfile(column_name, left_column.type, right_rows, right_rows)
             new_profile.add_column(left_column + right_column, column_name)
+
+        for column_name in right_profile._column_names:
+            if column_name not in self._column_names:
+                right_column = right_profile.column(column_name)
+                left_column = ColumnProfile(column_name, right_column.type, left_rows, left_rows)
+                new_profile.add_column(left_column + right_column, column_name)
 
         return new_profile
 
